@@ -192,3 +192,11 @@ Definition agree_eval (S : structure) (E : evaluation) : bool :=
 
 Definition agree (S : structure) (Es : list evaluation) : bool :=
   cert_ok S && forallb (agree_eval S) Es.
+
+(* Constructors used by the generated case files: indices are written as binary integers
+   (unary nat literals make the case files slow to read). *)
+Definition zinc (c f s : Z) : inc := (Z.to_nat c, Z.to_nat f, s).
+Definition zw (r m : Z) (w : Q) : wtr Q := (Z.to_nat r, Z.to_nat m, w).
+Definition zstructure (nc nf nm : Z) (D : list inc) (Pp Ps : list (wtr Q)) : structure :=
+  {| s_nc := Z.to_nat nc; s_nf := Z.to_nat nf; s_nm := Z.to_nat nm;
+     s_div := D; s_pp := Pp; s_ps := Ps |}.
